@@ -220,6 +220,18 @@ def agreement_encodings():
         ("object-dtype array vs numeric array", wrap(lambda v: np.array([v], dtype=object), lambda v: np.array([v]), enc_scalar({0: 3, 1: 8}))),
         ("numeric array vs object-dtype Series", wrap(lambda v: np.array([v]), lambda v: pd.Series([v], dtype=object), enc_scalar({0: 3, 1: 8}))),
         ("object-dtype arrays of mixed classes", wrap(lambda v: np.array([v], dtype=object), lambda v: np.array([v], dtype=object), enc_multiclass([1, "1", 1.5]))),
+        # class values that libraries like to treat as sentinels ("unlabelled", "missing", falsy): here they are ordinary classes
+        ("signed -1/+1", enc_scalar({0: -1, 1: 1})),
+        ("signed +1/-1 (the true class is mostly -1)", enc_scalar({0: 1, 1: -1})),
+        ("3 classes -1/0/1, same agreement", enc_multiclass([-1, 0, 1])),
+        ("floats -1.0/0.0", enc_scalar({0: -1.0, 1: 0.0})),
+        ("np.int8 -1/1", enc_scalar({0: np.int8(-1), 1: np.int8(1)})),
+        ("1-element arrays of -1/+1", wrap(lambda v: np.array([v]), lambda v: np.array([v]), enc_scalar({0: -1, 1: 1}))),
+        ("empty string / blank", enc_scalar({0: "", 1: " "})),
+        ("sentinel-like ints -999/-9999", enc_scalar({0: -999, 1: -9999})),
+        ("extreme ints 2**31-1/-2**31", enc_scalar({0: 2**31 - 1, 1: -2**31})),
+        ("np.uint8 255/0", enc_scalar({0: np.uint8(255), 1: np.uint8(0)})),
+        ("strings 'None'/'-1'/'0'", enc_multiclass(["None", "-1", "0", ""])),
         ("1-element lists", wrap(lambda v: [v], lambda v: [v])),
         ("1-element tuples of strings", wrap(lambda v: (v,), lambda v: (v,), enc_scalar({0: "x", 1: "y"}))),
         ("1-element ndarrays", wrap(lambda v: np.array([v]), lambda v: np.array([v]))),
@@ -309,7 +321,9 @@ def part_a(ctx, rng):
                 ctx.fail(signature={"class": "c16-canonical-run-raises", "detector": name},
                          what=f"{name}: the canonical 0/1 run raises", detector=name, pairs=pairs[:len(base)], impl=base[-1])
                 continue
-            for ename, enc in encs:
+            for ei, (ename, enc) in enumerate(encs):
+                if ctx.quick and mode == "agreement" and (ei + k) % 3 == 0:
+                    continue        # quick tier: every sequence runs two thirds of the encodings (rotating), budget ~70 s
                 r = np.random.default_rng([ctx.seed, k, len(ename)])
                 enc_pairs = [enc(yt, yp, r) for yt, yp in pairs]
                 tr = run_calls(make, [("update", p, {}) for p in enc_pairs], seeds)
